@@ -265,5 +265,13 @@ size_t strlcpy(char *dst, const char *src, size_t size);
 // as CURL_MAX_HTTP_HEADER
 #define HTP_MAX_HEADER_FOLDED 102400
 
+#ifdef LIBHTP_VERIF
+/* Verification trace points (no effect on parsing); defined by the verification harness. */
+void htp_verif_site(int site, const void *connp, long a, long b);
+#define HTP_VERIF_SITE_RES_HDR_LFCR                   1
+#define HTP_VERIF_SITE_RES_COMPLETE_EARLY_DATA_OTHER  2
+#define HTP_VERIF_SITE_DECOMP_RESTART                 3
+#endif
+
 #endif	/* _HTP_PRIVATE_H */
 
